@@ -1,15 +1,15 @@
 SPECIFICATION Spec
 CONSTANTS
-  N = 2
+  N = 3
   Inc = 2
   MaxH = 2
   MaxReq = 1
-  DesigSets <- DesigAll2
+  DesigSets <- DesigAll3
   FeeSet <- FeesOne
-  MaxNet = 4
+  MaxNet = 5
   AllowFast = FALSE
   AllowForge = FALSE
-  AllowRestart = TRUE
+  AllowRestart = FALSE
   AllowAlt = TRUE
   AllowTick = TRUE
   BugVubCurrent = FALSE
